@@ -200,6 +200,7 @@ func (w *hintFileWriter) close() error {
 	w.hintFileMeta.Dumps(buf[:])
 	w.fd.Write(buf[:])
 	w.fd.Close()
+	verifPoint("hint:tmp-written")
 	tmp := w.path + ".tmp"
 	err := os.Rename(tmp, w.path)
 	if err != nil {
